@@ -70,6 +70,7 @@ ASSUMPTIONS = [
 REQUIRED = ['kind:em', 'kind:mech', 'kind:sbml', 'kind:pop', 'kind:ll', 'kind:pred', 'kind:poppred', 'kind:ctrl',
             'kind:ctrlpop', 'op:fix', 'op:refix', 'op:release', 'op:mixed', 'op:release_all', 'op:bogus', 'op:rename',
             'op:copy', 'op:sens', 'op:nids', 'op:set_data', 'all_fixed', 'late_n_ids', 'exhaustive', 'sbml:admin',
+            'fix_arg:one_shot_iterable',
             'pop:bare', 'pop:pooled', 'pop:hetero', 'pop:cov', 'sens_while_fixed']
 
 KIND_MENU = ['em', 'em', 'mech', 'mech', 'sbml', 'pop', 'pop', 'pop', 'll', 'll', 'pred', 'poppred', 'ctrl', 'ctrlpop']
@@ -1250,6 +1251,17 @@ def check(case):
                 d = {}
                 for k, v in op['vals'].items():
                     d[cur.names[int(k)]] = None if v is None else float(v)
+                # the argument "has to be convertable to a python dictionary": a dictionary, a list of pairs, and
+                # iterables that can be read only once (zip, generator)
+                form = step % 4
+                if form == 1:
+                    d = list(d.items())
+                elif form == 2:
+                    d = zip(list(d.keys()), list(d.values()))
+                elif form == 3:
+                    d = ((k, v) for k, v in list(d.items()))
+                if form >= 2 and 'fix_arg:one_shot_iterable' not in case.labels:
+                    case.labels.append('fix_arg:one_shot_iterable')
                 ad.fix(cur.obj, d)
                 cur.fixed = _step_model(kind, cur.fixed, op, n)
             elif o == 'release_all':
